@@ -129,6 +129,26 @@ func (x *Exec) count(r *Result) {
 }
 
 // Execute runs all events.
+type nopOracle struct{ prop string }
+
+func (n nopOracle) Property() string  { return n.prop }
+func (nopOracle) Check(*Exec, *Event) {}
+func (nopOracle) Round(*Exec, *Event) {}
+
+// Twin builds a second store in the state this one is in: the same world with
+// the scenario's events before the current one applied (checks and rounds do
+// nothing). It shares nothing with x.S but the library's package-level state:
+// its own schema objects, decoder context and hook registry. C05 computes the
+// "same query run alone" answers there, so that whatever a request does to
+// shared state happens inside the concurrent round and not before it.
+func (x *Exec) Twin() *Store {
+	tsc := *x.Sc
+	tsc.Events = x.Sc.Events[:x.EvIdx]
+	tx := NewExec(&tsc, nopOracle{x.Sc.Property}, NewCoverage())
+	tx.Execute()
+	return tx.S
+}
+
 func (x *Exec) Execute() {
 	x.S = NewStore(x.Sc.World)
 	x.Sess = x.S.NewSession()
